@@ -108,6 +108,7 @@ func pxNew(strategy, ids, base string) string {
 			if len(f) == 2 {
 				sd, _ := strconv.Atoi(f[0])
 				n, _ := strconv.Atoi(f[1])
+				w.Header().Set("Content-Type", "text/plain; charset=utf-8")
 				_, _ = w.Write(pxBody(n, sd))
 			}
 			return
@@ -441,18 +442,20 @@ func pxExchange(mode, method, target, hdrs string, reqlen int, framing string, s
 			return "MISSING-resp"
 		case !hasB:
 			return "MISSING-backend"
-		case r[0] != b[0] || (len(b) == 1 && len(r) != 1):
+		case r[0] != b[0]:
 			// (an identifier header the client sent on several lines reaches the backend line by line — that is
 			// transparency —; the identifier is its first value, and that is what comes back)
 			return "MISMATCH"
 		}
+		// further values under the identifier's name are tolerated only when the backend's script put them there
+		own := strings.Contains(strings.ToLower(script), "sh:"+strings.ToLower(name)+":")
 		if s := sent.Get(name); strings.TrimSpace(s) != "" {
-			if r[0] == s && len(r) == 1 {
+			if r[0] == s && (len(r) == 1 || own) {
 				return "sup"
 			}
 			return "CHANGED"
 		}
-		if genRe.MatchString(r[0]) && len(r) == 1 {
+		if genRe.MatchString(r[0]) && (len(r) == 1 || own) {
 			return "gen"
 		}
 		return "other"
@@ -501,13 +504,26 @@ func pxConc(n, l int) string {
 			}
 			defer c.Close()
 			_ = c.SetDeadline(time.Now().Add(20 * time.Second))
-			fmt.Fprintf(c, "GET /conc HTTP/1.1\r\nHost: verif.test\r\nConnection: close\r\nX-V-Conc: %d.%d\r\n\r\n", k+1, l)
+			ae := ""
+			if strings.Contains(pxFeatures, "g") {
+				ae = "Accept-Encoding: gzip\r\n" // with the gzip plugin in the chain the concurrent clients accept it (and decode)
+			}
+			fmt.Fprintf(c, "GET /conc HTTP/1.1\r\nHost: verif.test\r\nConnection: close\r\n%sX-V-Conc: %d.%d\r\n\r\n", ae, k+1, l)
 			resp, err := http.ReadResponse(bufio.NewReader(c), nil)
 			if err != nil {
 				errs[k] = "read:" + esc(err.Error())
 				return
 			}
-			body, err := io.ReadAll(resp.Body)
+			var rb io.Reader = resp.Body
+			if resp.Header.Get("Content-Encoding") == "gzip" {
+				zr, zerr := gzip.NewReader(resp.Body)
+				if zerr != nil {
+					errs[k] = "gzip:" + esc(zerr.Error())
+					return
+				}
+				rb = zr
+			}
+			body, err := io.ReadAll(rb)
 			resp.Body.Close()
 			want := pxBody(l, k+1)
 			if err != nil || resp.StatusCode != 200 || len(body) != len(want) {
